@@ -174,9 +174,32 @@ def _run_pair(case):
         f = tempfile.NamedTemporaryFile("w", suffix=".yaml", delete=False)
         yaml.safe_dump(cfg, f)
         f.close()
+        f0 = None
         try:
             op = OperatingConditions(t_tot=case["t_tot"], cooling={"rate": case["rate"], "start": 20, "end": -50})
-            S = Snowing(k={"int": 0, "ext": 0, "s0": case["s0"], "s_sigma_rel": 0}, opcond=op, configPath=f.name)
+            prev = case.get("prev") if conf == "VISF" else None
+            if prev is None:
+                S = Snowing(k={"int": 0, "ext": 0, "s0": case["s0"], "s_sigma_rel": 0}, opcond=op, configPath=f.name)
+            else:
+                # object HISTORY: a first run with another VISF configuration (window / kappa / p_vac), then the
+                # configuration file is re-pointed on the USED object (`S.configPath = …`) and it runs again; the
+                # observed run is the second one, and it must be the run of the configuration it now shows
+                cfg0 = {"snowing_parameters": {"dimensionality": "spatial_1D", "configuration": "VISF"},
+                        "vial": {"geometry": {"height": case["height"]}},
+                        "VISF": {"t_vac_start": prev["t_start"], "t_vac_duration": prev["t_dur"]}}
+                for kk in ("kappa", "p_vac"):
+                    if prev.get(kk) is not None:
+                        cfg0["VISF"][kk] = prev[kk]
+                f0 = tempfile.NamedTemporaryFile("w", suffix=".yaml", delete=False)
+                yaml.safe_dump(cfg0, f0)
+                f0.close()
+                S = Snowing(k={"int": 0, "ext": 0, "s0": case["s0"], "s_sigma_rel": 0}, opcond=op, configPath=f0.name)
+                try:
+                    S.run()
+                    out["first_run"] = None
+                except Exception as e:
+                    out["first_run"] = core.exc_class(e)
+                S.configPath = f.name
             # observe (from outside) which utils function the loop calls at which step
             import ethz_snow.snowing as _sn
             U = _sn.Utils
@@ -201,6 +224,8 @@ def _run_pair(case):
             out[conf]["calls"] = "".join(calls)
         finally:
             os.unlink(f.name)
+            if f0 is not None:
+                os.unlink(f0.name)
     return out
 
 
@@ -268,7 +293,9 @@ def run_impl(case):
         return {"raise": None, "first": {d: _first_call(d) for d in ("spatial_1D", "spatial_2D")}}
     if k == "window":
         pair = _run_pair(case)
-        obs = {"raise": None, "runs": {c: pair[c]["raise"] for c in pair}}
+        obs = {"raise": None, "runs": {c: pair[c]["raise"] for c in ("VISF", "shelf")}}
+        if "first_run" in pair:
+            obs["first_run"] = pair["first_run"]
         V, Sh = pair["VISF"], pair["shelf"]
         obs["shelf_calls"] = len(Sh["calls"])
         # per step: one pressure call (L = liquid curve, S = ice curve), followed by F when the flux is evaluated
@@ -724,6 +751,18 @@ def _window_case(rng, cls=None):
     return case
 
 
+def _history_case(rng, k):
+    """second run of a USED object after `configPath` was re-pointed to a file with a DISJOINT window (and another
+    kappa / p_vac): A early -> B late, A late -> B early, A open -> B empty, A open -> B beyond the process"""
+    b = _window_case(rng, ["solid", "early", "empty", "beyond"][k % 4])
+    a_cls = ["early", "solid", "early", "straddle"][k % 4]
+    a = _window_case(rng, a_cls)
+    b["prev"] = dict(t_start=a["t_start"], t_dur=a["t_dur"], kappa=rng.choice([0.02, 0.005]),
+                     p_vac=rng.choice([50, 200]))
+    b["cls"] = "history:" + a_cls + "->" + b["cls"]
+    return b
+
+
 def cases(rng, tier):
     n_utils, n_win = (24, 10) if tier == "quick" else (400, 120)
     yield dict(kind="grid")
@@ -733,6 +772,8 @@ def cases(rng, tier):
     must = ["early", "straddle", "solid", "beyond", "empty", "start0", "start0-empty"]
     for i in range(n_win):
         yield _window_case(rng, must[i] if i < len(must) else None)
+    for k in range(2 if tier == "quick" else 16):
+        yield _history_case(rng, k + (core.env_seed() % 4))
 
 
 def widen(rng, tier):
